@@ -141,6 +141,24 @@ def tabBandsUnique {V : Type} (groups : List (Nat × Nat)) (ibands : List Nat) (
     List (Option V) :=
   tabBands groups (uniqueSorted ibands) values
 
+/-! ### the text writer behind `fermiSurfer` / `write_frmsf` (`_savetxt`, parallel branch) -/
+
+/-- points per writer process: `n // npar + (1 if n % npar > 0 else 0)` -/
+def nppproc (n npar : Nat) : Nat := n / npar + (if n % npar > 0 then 1 else 0)
+
+/-- `[(i, i + npp) for i in range(0, n, npp)]` (numpy clips the last slice at `n`) -/
+def chunkBounds (n npp : Nat) : List (Nat × Nat) :=
+  (List.range ((n + npp - 1) / npp)).map (fun c => (c * npp, c * npp + npp))
+
+/-- the text: the chunks written one after another -/
+def chunkWrite {α : Type} (a : List α) (npp : Nat) : List α :=
+  (chunkBounds a.length npp).flatMap (fun b => (a.drop b.1).take (b.2 - b.1))
+
+/-- a SEEDED 'balanced' variant: `bounds = arange(0, n+1, npp)`, `zip(bounds[:-1], bounds[1:])` -/
+def chunkBoundsArange (n npp : Nat) : List (Nat × Nat) :=
+  let b := (List.range (n / npp + 1)).map (· * npp)
+  b.zip b.tail
+
 /-! ### components of a tensor-valued array -/
 
 /-- an array with `lead` leading axes (k, band) followed by `ndim` tensor axes of length 3, as a function of the
